@@ -7,6 +7,7 @@ import OdeVerif.Generated.DrawDecision
 import OdeVerif.Generated.Constants
 import OdeVerif.Model.Stiffness
 import OdeVerif.Model.Spikes
+import OdeVerif.Model.AnalyticIntegrator
 
 open Lean
 
@@ -160,6 +161,65 @@ def opFromJson (j : Json) : Except String Json := do
   let res := Spikes.fromJson marker parsed
   pure (Json.mkObj (res.map (fun (k, v) => (String.ofList k, Json.arr (v.map Json.str).toArray))))
 
+/-! ### C12 analytic integrator -/
+
+/-- IEEE double with *bitwise* decidable equality (agrees with Python's `==` except on ±0 and NaN,
+which the generators exclude); order and subtraction are the `Float` ones. -/
+structure FT where
+  bits : UInt64
+deriving DecidableEq
+
+namespace FT
+def toF (x : FT) : Float := Float.ofBits x.bits
+def ofF (f : Float) : FT := ⟨f.toBits⟩
+instance : LT FT := ⟨fun a b => a.toF < b.toF⟩
+instance : LE FT := ⟨fun a b => a.toF ≤ b.toF⟩
+instance : DecidableLT FT := fun a b => inferInstanceAs (Decidable (a.toF < b.toF))
+instance : DecidableLE FT := fun a b => inferInstanceAs (Decidable (a.toF ≤ b.toF))
+instance : Sub FT := ⟨fun a b => ofF (a.toF - b.toF)⟩
+instance : Add FT := ⟨fun a b => ofF (a.toF + b.toF)⟩
+instance : OfNat FT 0 := ⟨ofF 0.0⟩
+end FT
+
+def ftOfString (s : String) : Except String FT :=
+  match s.toNat? with
+  | some n => .ok ⟨UInt64.ofNat n⟩
+  | none => .error ("bad float bits: " ++ s)
+
+def parseAiOp (j : Json) : Except String (AI.Op FT) := do
+  let a ← j.getArr?
+  match a.toList with
+  | [k, t] => if (← k.getStr?) == "get" then do pure (.get (← ftOfString (← t.getStr?))) else .error "bad op"
+  | [k] => match (← k.getStr?) with
+    | "enable" => pure .enableUpdate
+    | "disable" => pure .disableUpdate
+    | "reset" => pure .reset
+    | _ => .error "bad op"
+  | _ => .error "bad op"
+
+/-- symbolic states: the history of propagation steps and increments, as a term -/
+def opAiRun (j : Json) : Except String Json := do
+  let vars ← j.getObjValAs? (List String) "vars"
+  let st ← getArr j "spike_times"
+  let d ← st.toList.mapM (fun kv => do
+    let a ← kv.getArr?
+    match a.toList with
+    | [k, ts] => do
+      let ts ← ts.getArr?
+      let ts ← ts.toList.mapM (fun t => do ftOfString (← t.getStr?))
+      pure ((← k.getStr?), ts)
+    | _ => .error "bad spike_times")
+  let spikes := AI.setSpikeTimes d
+  let p : AI.Params FT String String :=
+    { enableCaching := (← getBool j "enable_caching"), spikes := spikes, init := "INIT",
+      step := fun dt s => "S(" ++ toString dt.bits.toNat ++ "," ++ s ++ ")",
+      inc := fun sym s => if vars.contains sym then "I(" ++ sym ++ "," ++ s ++ ")" else s }
+  let ops ← (← getArr j "ops").toList.mapM parseAiOp
+  let outs := AI.runOps p (AI.initCache p) ops
+  pure (Json.mkObj [
+    ("spikes", Json.arr (spikes.map (fun (t, syms) => Json.arr #[Json.str (toString t.bits.toNat), Json.arr (syms.map Json.str).toArray])).toArray),
+    ("outs", Json.arr (outs.map (fun o => match o with | none => Json.null | some s => Json.str s)).toArray)])
+
 def dispatch (op : String) (j : Json) : Json :=
   match op with
   | "ping" => Json.mkObj [("pong", j)]
@@ -171,6 +231,7 @@ def dispatch (op : String) (j : Json) : Json :=
   | "poisson" => run (opPoisson j)
   | "list-stim" => run (opListStim j)
   | "from-json" => run (opFromJson j)
+  | "ai-run" => run (opAiRun j)
   | _ => jerr ("unknown-op: " ++ op)
 
 end OdeVerif.Driver
